@@ -374,6 +374,14 @@ func generateOverlay(pk *packages.Package, fset *token.FileSet, cf *ContractFile
 			if fd == nil {
 				return nil, fmt.Errorf("%s:%d: contract for %s: no such function in package %s", c.File, c.Line, c.Key, pk.PkgPath)
 			}
+			if c.Closure > 0 {
+				lits := directFuncLits(fd)
+				if c.Closure > len(lits) {
+					return nil, fmt.Errorf("%s:%d: %s has %d function literals, contract names literal %d", c.File, c.Line, c.FuncName, len(lits), c.Closure)
+				}
+				lit := lits[c.Closure-1]
+				fd = &ast.FuncDecl{Name: fd.Name, Type: lit.Type, Body: lit.Body}
+			}
 		}
 		_ = fobj
 		sigPre := c.sigParams(false)
@@ -693,6 +701,20 @@ func findFuncDecl(pk *packages.Package, c *Contract) (*ast.FuncDecl, *types.Func
 	return nil, nil
 }
 
+// directFuncLits lists the function literals directly inside a function body (not nested
+// in another literal) in source order: the order of ssa.Function.AnonFuncs.
+func directFuncLits(fd *ast.FuncDecl) []*ast.FuncLit {
+	var out []*ast.FuncLit
+	ast.Inspect(fd.Body, func(n ast.Node) bool {
+		if l, ok := n.(*ast.FuncLit); ok {
+			out = append(out, l)
+			return false
+		}
+		return true
+	})
+	return out
+}
+
 // loopStmts lists the for/range statements of a function body in source order, not
 // descending into function literals.
 func loopStmts(fd *ast.FuncDecl) []ast.Stmt {
@@ -753,6 +775,15 @@ func (p *Program) resolveContracts() error {
 }
 
 func (p *Program) lookupFunc(sp *ssa.Package, c *Contract) *ssa.Function {
+	if c.Closure > 0 {
+		cc := *c
+		cc.Closure = 0
+		parent := p.lookupFunc(sp, &cc)
+		if parent == nil || c.Closure > len(parent.AnonFuncs) {
+			return nil
+		}
+		return parent.AnonFuncs[c.Closure-1]
+	}
 	if c.RecvType == "" {
 		return sp.Func(c.FuncName)
 	}
